@@ -109,7 +109,7 @@ struct StopVisitor
 #ifdef SBV_ALL_PAIRS
 #define SBV_PAIRS(M) M(b8_n8) M(b8_n16) M(b8_n32) M(b8_n64) M(b16_n8) M(b16_n16) M(b16_n32) M(b16_n64) M(b32_n8) M(b32_n16) M(b32_n32) M(b32_n64) M(b64_n8) M(b64_n16) M(b64_n32) M(b64_n64)
 #else
-#define SBV_PAIRS(M) M(b16_n16) M(b32_n8) M(b32_n32) M(b8_n64) M(b64_n16)
+#define SBV_PAIRS(M) M(b16_n16) M(b32_n8) M(b64_n16)
 #endif
 SBV_PAIRS(SBV_FLAT)
 SBV_PAIRS(SBV_NESTED)
